@@ -112,7 +112,8 @@ def mk_subroutine(flavour: str, version, app_id, instrs: list):
 
 # ---- value generators ---------------------------------------------------------------------------
 
-INT32_EDGE = [0, 1, -1, 2, 127, 128, 255, 256, 32767, 32768, 65535, 65536, 2**31 - 1, -(2**31), 2**31 - 2,
+INT32_EDGE = [1023456789, -1023456789, -1987654320, 2013456789, 1111111111, -2000000000,      # digit structure: all ten digits, one digit
+              0, 1, -1, 2, 127, 128, 255, 256, 32767, 32768, 65535, 65536, 2**31 - 1, -(2**31), 2**31 - 2,
               -(2**31) + 1, 2**24, -(2**24), 0x01020304, -0x01020304] + [1 << b for b in range(31)] + \
              [-(1 << b) for b in range(1, 31)]
 IMM8_EDGE = [0, 1, 2, 127, 128, 254, 255] + [1 << b for b in range(8)]
